@@ -1,6 +1,7 @@
 package vh
 
 import (
+	"sync"
 	"bytes"
 	"crypto/rand"
 	"fmt"
@@ -28,6 +29,9 @@ type CertDef struct {
 	Serial   uint64
 	// Host: a host certificate instead of a user certificate
 	Host bool `json:",omitempty"`
+	// Twin: a second certificate over the same key with the same serial, type and KeyID as an earlier
+	// CertDef (whose Key / KeyIDClass / Serial / Host it copies): a different certificate (other principals)
+	Twin bool `json:",omitempty"`
 }
 
 // Op is one step of a shim history.
@@ -57,7 +61,26 @@ type ShimCase struct {
 	// ListsWhileLocked: the underlying agent keeps listing its identities while locked.
 	ListsWhileLocked bool        `json:",omitempty"`
 	ConstructPlan    []FaultRule `json:",omitempty"`
-	Ops              []Op
+	// SlowCodes / SlowMS: the underlying agent answers the first request of each of these codes only after
+	// SlowMS milliseconds (a token waiting for a touch, a passphrase prompt); everything else is unchanged
+	SlowCodes []int `json:",omitempty"`
+	SlowMS    int   `json:",omitempty"`
+	// Comp: Option.PubKeyComp, the listing order: "" (default) | bytes | type | fingerprint
+	Comp string `json:",omitempty"`
+	Ops  []Op
+}
+
+// PubKeyComp returns the listing-order function named by Comp (nil = the default).
+func PubKeyComp(name string) func(x, y ssh.PublicKey) bool {
+	switch name {
+	case "bytes":
+		return func(x, y ssh.PublicKey) bool { return bytes.Compare(x.Marshal(), y.Marshal()) < 0 }
+	case "type":
+		return func(x, y ssh.PublicKey) bool { return x.Type() < y.Type() }
+	case "fingerprint":
+		return func(x, y ssh.PublicKey) bool { return ssh.FingerprintSHA256(x) < ssh.FingerprintSHA256(y) }
+	}
+	return nil
 }
 
 // Trace reports what a history exercised (for the non-trivial rules of the properties).
@@ -149,6 +172,14 @@ func keyIDFor(class string, serial uint64, key string) (string, map[string]strin
 			ms[i], ms[j] = ms[j], ms[i]
 		}
 		return " \n" + JoinMembers(ms, " ") + "\t\n", nil
+	case "ysshcabig": // a valid KeyID of several KiB (300 principals)
+		a.HW, a.Touch = true, 1
+		for i := 0; i < 300; i++ {
+			a.Prins = append(a.Prins, fmt.Sprintf("role-%04d-user", i))
+		}
+	case "ysshcahuge": // a valid KeyID beyond 64 KiB (one long value)
+		a.HW, a.Touch = true, 3
+		a.ReqHost = strings.Repeat("h", 70000)
 	case "missing":
 		ms := a.Members()
 		ms = append(ms[:4:4], ms[5:]...) // drop reqHost
@@ -169,6 +200,9 @@ func (w *world) buildCerts(now int64) {
 	for _, d := range w.c.Certs {
 		kid, crit := keyIDFor(d.KeyIDClass, d.Serial, d.Key)
 		s := SSHCertSpec{Key: d.Key, KeyID: kid, CritOpts: crit, Serial: d.Serial, Principals: []string{"user_a"}, Host: d.Host}
+		if d.Twin {
+			s.Principals = []string{"user_a", "user_b"}
+		}
 		switch d.Validity {
 		case "current":
 			s.ValidAfter, s.ValidBefore = uint64(now-3600), uint64(now+7200)
@@ -481,6 +515,21 @@ func RunShimCase(c ShimCase) (tr Trace, err error) {
 	w.p = p
 	defer p.Close()
 	p.ListsWhileLocked = c.ListsWhileLocked
+	if len(c.SlowCodes) > 0 && c.SlowMS > 0 {
+		var smu sync.Mutex
+		used := map[int]bool{}
+		p.Latency = func(code int) time.Duration {
+			smu.Lock()
+			defer smu.Unlock()
+			for _, sc := range c.SlowCodes {
+				if sc == code && !used[code] {
+					used[code] = true
+					return time.Duration(c.SlowMS) * time.Millisecond
+				}
+			}
+			return 0
+		}
+	}
 	w.buildCerts(time.Now().Unix())
 
 	for _, op := range c.Initial {
@@ -501,7 +550,7 @@ func RunShimCase(c ShimCase) (tr Trace, err error) {
 	var sh shimagent.ShimAgent
 	var nerr error
 	f0, _ := w.faultCount()
-	if perr := Catch(func() { sh, nerr = shimagent.New(shimagent.Option{Address: addr, NoUpstream: c.NoUpstream}) }); perr != nil {
+	if perr := Catch(func() { sh, nerr = shimagent.New(shimagent.Option{Address: addr, NoUpstream: c.NoUpstream, PubKeyComp: PubKeyComp(c.Comp)}) }); perr != nil {
 		return w.tr, Errf("shimagent.New crashed (no-upstream=%v, bad address=%v, construct plan %+v): %v", c.NoUpstream, c.BadAddress, c.ConstructPlan, perr)
 	}
 	f1, fatal := w.faultCount()
